@@ -136,6 +136,11 @@ def opBreaker : List String → Option String
         let (b', inv) := b.call (← parseInt t) (← parseBool s)
         b := b'
         out := s!"{boolStr inv}{cstateStr b'.state}" :: out
+      | [t, s, d] =>
+        let t0 ← parseInt t
+        let (b', inv) := b.callD t0 (t0 + (← parseInt d)) (← parseBool s)
+        b := b'
+        out := s!"{boolStr inv}{cstateStr b'.state}" :: out
       | _ => none
     pure (" ".intercalate out.reverse)
   | _ => none
